@@ -76,11 +76,13 @@ Definition bake_step (cf : cfg) (d13 : bool) (e : renv) (s : rstep) : result (re
       do o0 <- geto e n; do c <- create_solution cf n solutes solvent m;
       Ok (rset n (OC c) e, {| s_objs := [n]; s_to := n; s_to0 := o0; s_to1 := OC c; s_frm := None; s_trash := []; s_subs := keys (cont c) |})
   | SSolutionC n solutes v m =>
+      if Nat.eqb n v then Err EOther else      (* a second object named like the solvent is refused at declaration (C16) *)
       do o0 <- geto e n; do k <- getc e v; do r <- create_solution_c cf n solutes k m;
       Ok (rset n (OC (snd r)) (rset v (OC (fst r)) e),
           {| s_objs := [n; v]; s_to := n; s_to0 := o0; s_to1 := OC (snd r); s_frm := Some (v, OC k, OC (fst r)); s_trash := [];
              s_subs := keys (cont (snd r)) |})
   | SSolutionFrom src n solute c solvent q =>
+      if Nat.eqb src n then Err EOther else    (* likewise *)
       do o0 <- geto e n; do k <- getc e src; do r <- create_solution_from cf k solute c solvent q n;
       Ok (rset n (OC (snd r)) (rset src (OC (fst r)) e),
           {| s_objs := [src; n]; s_to := n; s_to0 := o0; s_to1 := OC (snd r); s_frm := Some (src, OC k, OC (fst r)); s_trash := [];
